@@ -49,6 +49,12 @@ TEXTS = {
         "level_note": "Trusted: T-OPS (which operations reduce, over which dim), T-NN eval-mode semantics of nn.BatchNorm1d/Dropout in user networks, A-NET. Definite-error policy: reductions with a non-constant dim are not classified as batch reductions except through the sum_except_batch summary.",
         "technique": "static taint analysis under a mode scenario + AST pair rules for masks and permute/reshape",
     },
+    "C19": {
+        "level_text": "ONLY the structural last sentence of C19 is decided ('results carry the dtype of the inputs'; a .double() model evaluates without a dtype error): a dtype-provenance abstract interpretation over every forward/inverse/accessor of transforms, log_prob of distributions and the spline functions reports (DT-MIX) a default-dtype tensor meeting a model-dtype tensor in a non-promoting operand position and (DT-RESULT) a returned tensor whose dtype can only come from a default-dtype constructor or float32 cast. The main body -- float32 agrees with float64 to single-precision accuracy scaled by conditioning, finiteness on moderate inputs -- is numerical analysis about cancellation in specific formulas; no sound static argument in reach bounds it, and it is NOT claimed.",
+        "design_ref": "DESIGN.md 1.8, 2.C19",
+        "level_note": "Trusted: T-OPS same-dtype-only operand table and torch promotion order; inputs and parameters share one floating dtype; A-NET, A-UMNN. Definite-error policy: only operands whose provenance set is exactly {D} / exactly {M} are reported.",
+        "technique": "static dtype-provenance abstract interpretation (partial claim: dtype clause only; numeric agreement declined)",
+    },
 }
 
 NOT_CLAIMED = {}
